@@ -649,3 +649,12 @@ func paramRef(fn *ssa.Function, idx int) (string, *ssa.Alloc) {
 	}
 	return fmt.Sprintf("p%d", idx), nil
 }
+
+// fnInstrs returns every instruction of fn in block order.
+func fnInstrs(fn *ssa.Function) []ssa.Instruction {
+	var out []ssa.Instruction
+	for _, b := range fn.Blocks {
+		out = append(out, b.Instrs...)
+	}
+	return out
+}
